@@ -90,7 +90,10 @@ class AsyncRequest {
    * no underlying data.
    **/
   OpResult getUpdate() {
-    if (state_.load(std::memory_order_acquire) == kReady) {
+    // Claim the update with a CAS (kUpdating doubles as "being consumed").  With a plain load two
+    // concurrent consumers could both see kReady and both move from obj_.
+    RequestState state = kReady;
+    if (state_.compare_exchange_strong(state, kUpdating, std::memory_order_acq_rel)) {
       DISPENSO_VERIF_POINT(::dispenso::verif::kAsyncGetAfterStateLoad);
       auto obj = std::move(obj_);
       state_.store(kNone, std::memory_order_release);
